@@ -37,3 +37,6 @@ def run(ctx, rep):
     builtins.rule_array_elements_to_text(ctx, rep, "C17-R18")
     textparse.rule_backward_search_start(ctx, rep, "C17-R19")
     optargs.rule_integer_argument_consulted(ctx, rep, "C17-R20", lambda f: _in_family(f.qual), "the Array and typed-array methods", floor=3)
+    builtins.rule_subarray_shares_memory(ctx, rep, "C17-R21")
+    builtins.rule_whole_elements_in_buffer(ctx, rep, "C17-R22")
+    optargs.rule_argument_count_cases(ctx, rep, "C17-R23")
